@@ -108,9 +108,13 @@ class Session:
         cfg = self.merged(extra_cfg)
         if cfg:
             argv += ["-c", self.write_cfg(cfg)]
+        if self.desc.get("local_rules"):
+            argv += ["-lr", self.desc["local_rules"]]
         argv += ["-f", self.name]
         sys.argv = argv
         cla = self.cla_mod.parse_command_line_arguments()
+        if cla.local_rules and os.path.abspath(cla.local_rules) not in sys.path:
+            sys.path.append(os.path.abspath(cla.local_rules))  # as vsg.__main__.main does
         oConfig = self.config.New(cla)
         lines, err = self.vf_pkg.utils.read_vhdlfile(self.name)
         oFile = self.vf_pkg.vhdlFile(lines, cla, self.name, err, oConfig)
@@ -118,6 +122,13 @@ class Session:
         oRules = self.rule_list.rule_list(oFile, oConfig.severity_list, cla.local_rules)
         self.ar.configure_rules(oConfig, oRules, oConfig.dConfig, 0, self.name)
         return oFile, oRules, cla
+
+
+def U(r):
+    """The rule's identity as configuration and reports know it (name_identifier).  For the built-in
+    rules this is the `unique_id` attribute; a local rule written the documented way only sets
+    `name` after construction, so its `unique_id` attribute is not unique."""
+    return str(getattr(r, "name", None)) + "_" + str(getattr(r, "identifier", None))
 
 
 def text_of(oFile):
@@ -213,7 +224,7 @@ def instrument(oRules, ran):
         orig = r.analyze
 
         def wrapped(oFile, _orig=orig, _r=r):
-            ran.append(_r.unique_id)
+            ran.append(U(_r))
             return _orig(oFile)
 
         r.analyze = wrapped
@@ -233,10 +244,10 @@ def schedule_cfg(s):
 def order_rules(oRules, s):
     if s.get("order"):
         pos = {u: i for i, u in enumerate(s["order"])}
-        oRules.rules.sort(key=lambda r: pos.get(r.unique_id, 1 << 30))
+        oRules.rules.sort(key=lambda r: pos.get(U(r), 1 << 30))
     elif s.get("perm_seed") is not None:
         rng = random.Random(H(s["perm_seed"], "perm"))
-        oRules.rules.sort(key=lambda r: r.unique_id)
+        oRules.rules.sort(key=lambda r: U(r))
         rng.shuffle(oRules.rules)
 
 
@@ -266,19 +277,19 @@ def run_api(desc, root, rec):
         alone = {}
         reparse = 0
         single = desc.get("alone_order")  # "fwd" / "rev": one pass only (the orchestrator runs each pass in a child of its own)
-        for r in sorted(real_rules(oRules), key=lambda r: r.unique_id, reverse=(single == "rev")):
+        for r in sorted(real_rules(oRules), key=lambda r: U(r), reverse=(single == "rev")):
             r.disable = False
             r.violations = []
             try:
                 r.analyze(oFile)
-                alone[r.unique_id] = vio(r)
+                alone[U(r)] = vio(r)
             except Exception as e:  # a rule that dies alone is C19's subject; it is left out
-                alone[r.unique_id] = None
-                out["errors"].append(("alone", r.unique_id, type(e).__name__))
+                alone[U(r)] = None
+                out["errors"].append(("alone", U(r), type(e).__name__))
             r.violations = []
             md = map_dirty(oFile, msnap)
             if md or is_dirty(oFile, snap):
-                out["writers"][r.unique_id] = {"attrs": (["<token map>"] if md else []) + dirty_attrs(oFile, snap), "text": text_of(oFile) != T0, "class": light_of(oFile) != L0}
+                out["writers"][U(r)] = {"attrs": (["<token map>"] if md else []) + dirty_attrs(oFile, snap), "text": text_of(oFile) != T0, "class": light_of(oFile) != L0}
                 oFile2, oRules2, _ = S.build()
                 # keep analysing with the remaining rule objects on a fresh file object
                 oFile = oFile2
@@ -293,14 +304,14 @@ def run_api(desc, root, rec):
         oFileB, oRulesB, _ = S.build()
         snapB, msnapB = shallow_items(oFileB), map_snapshot(oFileB)
         aloneB = {}
-        for r in sorted(real_rules(oRulesB), key=lambda r: r.unique_id, reverse=True) if not single else []:
+        for r in sorted(real_rules(oRulesB), key=lambda r: U(r), reverse=True) if not single else []:
             r.disable = False
             r.violations = []
             try:
                 r.analyze(oFileB)
-                aloneB[r.unique_id] = vio(r)
+                aloneB[U(r)] = vio(r)
             except Exception:
-                aloneB[r.unique_id] = None
+                aloneB[U(r)] = None
             r.violations = []
             if map_dirty(oFileB, msnapB) or is_dirty(oFileB, snapB):
                 oFileB, _x, _y = S.build()
@@ -309,7 +320,7 @@ def run_api(desc, root, rec):
         for u in suspects[:40]:
             oF, oR, _ = S.build()
             for r in oR.rules:
-                if r.unique_id == u:
+                if U(r) == u:
                     r.disable = False
                     r.violations = []
                     try:
@@ -344,7 +355,7 @@ def run_api(desc, root, rec):
             except (Exception, SystemExit):
                 break
             for r in oR.rules:
-                if r.unique_id == u:
+                if U(r) == u:
                     r.disable = False
                     r.violations = []
                     try:
@@ -365,7 +376,7 @@ def run_api(desc, root, rec):
             out["schedules"].append({"error": "build-failed", "detail": type(e).__name__ + ": " + str(e)[:200]})
             continue
         order_rules(oRules, s)
-        meta = {r.unique_id: (int(r.phase), int(r.subphase), bool(r.disable), r.severity.type) for r in oRules.rules if int(r.phase) != 0}
+        meta = {U(r): (int(r.phase), int(r.subphase), bool(r.disable), r.severity.type) for r in oRules.rules if int(r.phase) != 0}
         ran = []
         instrument(oRules, ran)
         T0, L0 = text_of(oFile), light_of(oFile)
@@ -382,7 +393,7 @@ def run_api(desc, root, rec):
             for r in oRules.rules:
                 v = vio(r)
                 if v:
-                    V[r.unique_id] = v
+                    V[U(r)] = v
             rep_json = rep_syn = None
             if err is None:
                 # what the user-visible reports contain, next to the per-rule violation lists
@@ -433,7 +444,7 @@ def _run_group(S, phase, sub, order):
     prime(oFile, preds)
     snap, msnap = shallow_items(oFile), map_snapshot(oFile)
     group = [r for r in rules if int(r.phase) == phase and int(r.subphase) == sub]
-    group.sort(key=lambda r: r.unique_id, reverse=(order == "rev"))
+    group.sort(key=lambda r: U(r), reverse=(order == "rev"))
     res = {}
     for r in group:
         was = r.disable
@@ -441,17 +452,17 @@ def _run_group(S, phase, sub, order):
         r.violations = []
         try:
             r.analyze(oFile)
-            res[r.unique_id] = vio(r)
+            res[U(r)] = vio(r)
         except Exception:
-            res[r.unique_id] = None
+            res[U(r)] = None
         r.violations = []
         r.disable = was
         if map_dirty(oFile, msnap) or is_dirty(oFile, snap):
             oFile, oRules2, _ = S.build()
-            byid = {x.unique_id: x for x in oRules2.rules}
-            prime(oFile, [byid[p.unique_id] for p in preds if p.unique_id in byid])
+            byid = {U(x): x for x in oRules2.rules}
+            prime(oFile, [byid[U(p)] for p in preds if U(p) in byid])
             snap, msnap = shallow_items(oFile), map_snapshot(oFile)
-    return res, [p.unique_id for p in preds]
+    return res, [U(p) for p in preds]
 
 
 def dependent_reference(S):
@@ -471,7 +482,7 @@ def dependent_reference(S):
                     suspects.append(u)
                     # its own fresh objects: predecessors, then this rule only
                     oF, oR, _ = S.build()
-                    byid = {x.unique_id: x for x in oR.rules}
+                    byid = {U(x): x for x in oR.rules}
                     for pu in preds:
                         pr = byid.get(pu)
                         if pr is not None:
@@ -503,7 +514,7 @@ def localize(S, loc):
     def differs(W):
         tests[0] += 1
         oFile, oRules, _ = S.build(cfg)
-        byid = {r.unique_id: r for r in oRules.rules}
+        byid = {U(r): r for r in oRules.rules}
         for u in list(loc.get("preds") or []) + W + [reader]:
             r = byid.get(u)
             if r is None:
